@@ -43,6 +43,7 @@ func runC18(c *Ctx, r *Report) {
 	c14TablesFor(c, r, "C18.R8", "openvpn") // parsers reject inputs of the wrong length whatever state the message object is in (a digest left from an earlier message)
 	c18ParsersAssign(c, r, "C18.R9")
 	c18ParsersAssignAlways(c, r, "C18.R10")
+	c18BoundsCompared(c, r, "C18.R11")
 }
 
 // c18Header evaluates MessageHeader.FromBytes/ToBytes for all 256 byte values.
